@@ -26,6 +26,8 @@ type c15Case struct {
 	// Ctx: where in a command the word stands (see c15Contexts); "" = the
 	// only argument of a command, at the end of the input.
 	Ctx string `json:"ctx,omitempty"`
+	// Opts: option bits of the environment (interp.Option), e.g. NoGlob.
+	Opts uint `json:"opts,omitempty"`
 }
 
 // c15Contexts: source templates (%s = the quoted word) and how to find the
@@ -195,6 +197,23 @@ func c15Quote(s, how string) (string, bool) {
 			return "", false
 		}
 		return "${c15_never_set-" + q + "}", true
+	case strings.HasPrefix(how, "word:"):
+		// the quoted text as the word of one of the expansions that use their
+		// word: word:<parameter and operator>:<quoting>. c15_set has a value,
+		// c15_null is set to the empty string, c15_never_set is not set.
+		f := strings.SplitN(how, ":", 3)
+		if len(f) != 3 {
+			return "", false
+		}
+		head, ok := c15WordOps[f[1]]
+		if !ok {
+			return "", false
+		}
+		q, ok := c15Quote(s, f[2])
+		if !ok || strings.Contains(s, "}") && f[2] == "backslash" {
+			return "", false
+		}
+		return "${" + head + q + "}", true
 	case strings.HasPrefix(how, "mixed:"):
 		choices := how[6:]
 		if s == "" {
@@ -223,11 +242,28 @@ func c15Quote(s, how string) (string, bool) {
 	return "", false
 }
 
+// c15WordOps: the expansions whose result is their word, given the state of
+// the parameter.
+var c15WordOps = map[string]string{
+	"unset-":   "c15_never_set-",
+	"unsetc-":  "c15_never_set:-",
+	"nullc-":   "c15_null:-",
+	"set+":     "c15_set+",
+	"setc+":    "c15_set:+",
+	"null+":    "c15_null+",
+	"pos+":     "1+",
+	"special+": "#:+",
+}
+
+var c15WordOpNames = []string{"unset-", "unsetc-", "nullc-", "set+", "setc+", "null+", "pos+", "special+"}
+
 var c15Env = func() *interp.ExecEnv {
 	e := interp.NewExecEnv("sh", "pos one", "*", "b")
 	e.Set("HOME", "/home/c15")
 	e.Set("a", "VALUE_OF_a")
 	e.Set("b", "VALUE OF b")
+	e.Set("c15_set", "* value")
+	e.Set("c15_null", "")
 	return e
 }()
 
@@ -260,6 +296,9 @@ func checkC15(c c15Case) error {
 	// an adversarial IFS: every character of s, plus the usual ones
 	env.Set("IFS", c.S+" \t\nab")
 	mode := interp.ExpMode(c.Mode)
+	opts := env.Opts
+	env.Opts = interp.Option(c.Opts)
+	defer func() { env.Opts = opts }()
 	var got []string
 	var gerr error
 	if e := guard(func() error { got, gerr = env.Expand(sc.Args[1], mode); return nil }); e != nil {
@@ -443,6 +482,9 @@ func checkC15Removal(c c15Removal) error {
 	env.Opts |= interp.NoGlob
 	env.Set("IFS", "")
 	env.Set("v", v)
+	env.Set("c15_set", "* value")
+	env.Set("c15_null", "")
+	env.Args = append(env.Args[:1:1], "pos one")
 	var got []string
 	var gerr error
 	if e := guard(func() error { got, gerr = env.Expand(word, 0); return nil }); e != nil {
@@ -513,6 +555,12 @@ func TestC15(t *testing.T) {
 			st.EvalN(1, 0)
 		}
 		st.Class("quoting_" + strings.SplitN(c.Quote, ":", 2)[0])
+		if strings.HasPrefix(c.Quote, "word:") {
+			st.Class("word_of_" + strings.SplitN(c.Quote, ":", 3)[1])
+		}
+		if c.Opts != 0 {
+			st.Class("option_noglob")
+		}
 	}
 
 	maxn := 3
@@ -526,15 +574,17 @@ func TestC15(t *testing.T) {
 			if idx%nsh != sh {
 				return
 			}
-			for qi, how := range []string{"single", "double", "backslash", "mixed:" + fmt.Sprintf("%03d", idx%1000), []string{"param-single", "param-double", "param-backslash"}[idx%3]} {
+			for qi, how := range []string{"single", "double", "backslash", "mixed:" + fmt.Sprintf("%03d", idx%1000), []string{"param-single", "param-double", "param-backslash"}[idx%3],
+				"word:" + c15WordOpNames[idx%len(c15WordOpNames)] + ":" + []string{"single", "double", "backslash"}[(idx/len(c15WordOpNames))%3]} {
 				if strings.HasPrefix(how, "mixed:") {
 					// a mix derived from the index: digits 0,1,2 select ', \ and "
 					how = "mixed:" + strings.Map(func(r rune) rune { return '0' + (r-'0')%3 }, fmt.Sprintf("%04d", idx%10000))
 				}
 				for mi, m := range c15Modes {
-					run(t, c15Case{S: s, Quote: how, Mode: m}, false)
+					// (with and without the option that turns pathname expansion off)
+					run(t, c15Case{S: s, Quote: how, Mode: m, Opts: uint(interp.NoGlob) * uint((idx+qi+mi)%2)}, false)
 					// the same word elsewhere in a command
-					run(t, c15Case{S: s, Quote: how, Mode: m, Ctx: c15CtxNames[(idx+qi+mi)%len(c15CtxNames)]}, false)
+					run(t, c15Case{S: s, Quote: how, Mode: m, Ctx: c15CtxNames[(idx+qi+mi)%len(c15CtxNames)], Opts: uint(interp.NoGlob) * uint((idx+qi+mi+1)%2)}, false)
 				}
 				if n <= 2 {
 					for _, cx := range c15CtxNames {
@@ -591,7 +641,10 @@ func TestC15(t *testing.T) {
 	pool := append(append([]string{}, c15Alpha...), "\uFFFD", "\r", "\u00a0", "e\u0301", "\U0001F600", "\u0080", "\f", "日", "x", "ab", "$a", "${b}", "$(c)", "`c`", "$((1))", "~/", "*/", "[a-b]", `\n`, "''", `""`)
 	prop := func(rt *rapid.T) {
 		s := strings.Join(rapid.SliceOfN(rapid.SampledFrom(pool), 0, 12).Draw(rt, "s"), "")
-		how := rapid.SampledFrom([]string{"single", "double", "backslash", "mixed", "param-single", "param-double", "param-backslash"}).Draw(rt, "quote")
+		how := rapid.SampledFrom([]string{"single", "double", "backslash", "mixed", "param-single", "param-double", "param-backslash", "word", "word"}).Draw(rt, "quote")
+		if how == "word" {
+			how = "word:" + rapid.SampledFrom(c15WordOpNames).Draw(rt, "wordop") + ":" + rapid.SampledFrom([]string{"single", "double", "backslash"}).Draw(rt, "wordquote")
+		}
 		if how == "mixed" {
 			var b strings.Builder
 			for range []rune(s) {
@@ -601,6 +654,9 @@ func TestC15(t *testing.T) {
 		}
 		m := rapid.SampledFrom(c15Modes).Draw(rt, "mode")
 		c := c15Case{S: s, Quote: how, Mode: m}
+		if rapid.Bool().Draw(rt, "noglob") {
+			c.Opts = uint(interp.NoGlob)
+		}
 		if rapid.Bool().Draw(rt, "in_context") {
 			c.Ctx = rapid.SampledFrom(c15CtxNames).Draw(rt, "ctx")
 		}
